@@ -178,6 +178,21 @@ def run(tier):
                        "replicate_rows_query and def_multi_column_map are decided by enumeration on the real engines (finite domain / record transforms outside the linear models): not a solver verdict",
                        "xicor and braid helpers are not named by the property"]
     runner.replay_known(rep, PROP, entries)
+    for e in entries:
+        if e.get("id") == "multi_map_single_column":  # recorded finding without a two-sided witness: replayed as the failing call itself
+            try:
+                import pandas as pd
+                from data_algebra.data_ops import descr
+                from data_algebra.solutions import def_multi_column_map
+
+                d = pd.DataFrame({"id": [1, 2, 3], "va": ["a", "b", "c"]})
+                m = pd.DataFrame({"column_name": ["va", "va"], "column_value": ["a", "b"], "mapped_value": [1.0, 2.0]})
+                try:
+                    def_multi_column_map(descr(d=d), mapping_table=descr(m=m), row_keys=["id"], cols_to_map=["va"], coalesce_value=0.0)
+                except ValueError:
+                    rep.known_finding(f"{e['id']}: {e['what_fails']}")
+            except Exception as ex:
+                rep.harness_error(f"known finding replay crashed: {ex!r}")
     return rep.finish()
 
 
